@@ -102,17 +102,31 @@ Fixpoint lookup (s : string) (m : list (string * optdef)) : option optdef :=
 (* CA: positional 'A';  CDash: the "--" marker;  CO act explicit_arg: 'O' *)
 Inductive cls := CA | CDash | CO (act : option optdef) (expl : option string).
 
+Definition take2 (s : string) : string :=
+  match s with String a (String b _) => String a (String b EmptyString) | _ => s end.
+Definition drop2 (s : string) : string :=
+  match s with String _ (String _ r) => r | _ => EmptyString end.
+Definition second_is_dash (s : string) : bool :=
+  match s with String _ (String b _) => Ascii.eqb b ch_dash | _ => false end.
+
+(* _get_option_tuples for an argument of two or more characters *)
 Definition option_tuples (m : list (string * optdef)) (s : string) : list cls :=
-  match s with
-  | String a (String b r) =>
-      if Ascii.eqb b ch_dash then []     (* two prefix characters: allow_abbrev=False *)
-      else flat_map (fun ko : string * optdef =>
-                       let (os, o) := ko in
-                       if String.eqb os (String a (String b EmptyString)) then [CO (Some o) (Some r)]
-                       else if prefixb s os then [CO (Some o) None]   (* abbreviation, not guarded by allow_abbrev *)
-                       else []) m
-  | _ => []
+  if second_is_dash s then []            (* two prefix characters: only with allow_abbrev *)
+  else flat_map (fun ko : string * optdef =>
+                   if String.eqb (fst ko) (take2 s) then [CO (Some (snd ko)) (Some (drop2 s))]
+                   else if prefixb s (fst ko) then [CO (Some (snd ko)) None]   (* abbreviation, not guarded by allow_abbrev *)
+                   else []) m.
+
+(* "if '=' in arg_string": the part before the first '=' is an option string *)
+Definition by_eq (m : list (string * optdef)) (s : string) : option cls :=
+  match split_at ch_eq s with
+  | Some (b, e) => match lookup b m with Some o => Some (CO (Some o) (Some e)) | None => None end
+  | None => None
   end.
+
+(* no interpretation as an option of this parser *)
+Definition fallback (s : string) : cls :=
+  if negnum s then CA else if has_char ch_space s then CA else CO None None.
 
 Inductive perr := SystemExit.
 Definition parse_optional (m : list (string * optdef)) (s : string) : perr + cls :=
@@ -126,19 +140,13 @@ Definition parse_optional (m : list (string * optdef)) (s : string) : perr + cls
         match r with
         | EmptyString => inr CA
         | _ =>
-          let by_eq := match split_at ch_eq s with
-                       | Some (b, e) => match lookup b m with Some o => Some (CO (Some o) (Some e)) | None => None end
-                       | None => None
-                       end in
-          match by_eq with
+          match by_eq m s with
           | Some c => inr c
           | None =>
             match option_tuples m s with
             | _ :: _ :: _ => inl SystemExit            (* parser.error("ambiguous option") *)
             | [c] => inr c
-            | [] => if negnum s then inr CA
-                    else if has_char ch_space s then inr CA
-                    else inr (CO None None)
+            | [] => inr (fallback s)
             end
           end
         end
